@@ -63,6 +63,8 @@ KERNELS = [
     "pad_size", "format_numeric_prefix", "format_numeric_string",
     # include/st_formatter.h: the padding / truncation of every text-like argument (namespace ST)
     "format_string@text:const char *",
+    # include/st_string_priv.h: the case-insensitive search for one character
+    "find_ci/3",
 ]
 
 class Unsupported(Exception):
@@ -806,6 +808,8 @@ class Translator:
             env.ev = ne
         if sig["ret"] is None:
             return lines, None, env
+        if sig["ret"] == "ptr":
+            raise Unsupported("call of a function that returns a pointer")
         lo, hi, isint = sig["ret"]
         return lines, Val(r, lo, hi, isint=isint, atom=True), env
 
@@ -870,7 +874,18 @@ class Translator:
             if env.pending is not None:
                 raise Unsupported("return while a block copy is pending")
             sub = inner(s)
-            if sub:
+            if sub and fn.ret == "ptr":
+                x = sub[0]
+                while x["kind"] in ("ImplicitCastExpr", "ParenExpr"):
+                    if x["kind"] == "ImplicitCastExpr" and x.get("castKind") == "NullToPointer":
+                        break
+                    x = inner(x)[0]
+                if x.get("castKind") == "NullToPointer" or x["kind"] == "CXXNullPtrLiteralExpr":
+                    l, v = [], Val("(none : Option Nat)", 0, 0, atom=True)
+                else:
+                    l, v, env = self.expr(fn, sub[0], env)
+                    v = Val("(some %s)" % to_nat(v).p(), 0, 0, atom=True)
+            elif sub:
                 l, v, env = self.expr(fn, sub[0], env)
                 v = self.convert(v, fn.ret_t)
                 v = to_int(v) if fn.ret[2] else to_nat(v)
@@ -1462,6 +1477,8 @@ class Translator:
         rt = qt(d); rt = rt[:rt.index("(")].strip()
         if rt == "void":
             fn.ret = None; fn.ret_t = None
+        elif is_pointer(rt) and "const" in pointee(rt):
+            fn.ret = "ptr"; fn.ret_t = rt          # a pointer into the source, or null: `Option Nat`
         else:
             it = int_type(rt, self.enums)
             if it is None:
@@ -1475,7 +1492,9 @@ class Translator:
         lines = self.block(fn, inner(body), env, fallthrough, 1)
         uses_mem = uses_mem or any(" mem " in x for x in lines)
         rtys = []
-        if fn.ret is not None:
+        if fn.ret == "ptr":
+            rtys.append("Option Nat")
+        elif fn.ret is not None:
             rtys.append("Int" if fn.ret[2] else "Nat")
         rtys += ["Nat"] * len(fn.inouts)
         if fn.has_out:
